@@ -21,7 +21,11 @@ def c12_check(kind, items, ns):
             if "TypeError" not in (lt, gt):
                 if [lt, eq, gt].count(True) != 1: bad.append("trichotomy: < == > are %r %r %r for %s, %s" % (lt, eq, gt, items[0], items[1]))
                 if cmp(lambda: a <= b) != cmp(lambda: b >= a): bad.append("mirror: (a <= b) != (b >= a)")
-            if eq and hash(a) != hash(b): bad.append("hash: %s == %s but the hashes differ" % (items[0], items[1]))
+            if eq and hash(a) != hash(b):
+                # equal quantities written in ONE unit (1, 1.0, Decimal('1')) have a key of their own: the recorded finding is about different units
+                bad.append("%s: %s == %s but the hashes differ" % ("same-unit-hash" if a.unit is b.unit else "hash", items[0], items[1]))
+            if a != b and eq: bad.append("ne: %s == %s and != are both True" % (items[0], items[1]))
+            if not eq and not (a != b): bad.append("ne: %s == %s and != are both False" % (items[0], items[1]))
     elif kind == "sort":
         from native import oracle
         S = oracle.sizes()
@@ -53,8 +57,15 @@ def run(tier, seed):
     failures, samples, evals, distinct = [], [], 0, set()
     mags = ["1", "2", "2.5", "1000", "0.001", "Decimal('2.5')", "-3"]
     while evals < n and len([f for f in failures if not f["key"].startswith("hash")]) < 4:
-        kind = rng.choice(["q", "q", "m", "m", "level", "sort"])
-        if kind == "q":
+        kind = rng.choice(["q", "q", "m", "m", "level", "sort", "same"])
+        if kind == "same":
+            # numerically equal magnitudes of different types in one unit
+            a, _ = g.pair()
+            v = rng.choice([1, 2, 1000, -3, 0])
+            forms = ["%d" % v, "%d.0" % v, "Decimal('%d')" % v, "Decimal('%d.00')" % v]
+            items = ["(%s * %s)" % (f_, a) for f_ in rng.sample(forms, 2)]
+            k = "pair"
+        elif kind == "q":
             a, b = g.pair()
             m = rng.choice(mags)
             items = ["(%s * %s)" % (m, a), "(%s * %s)" % (rng.choice(mags), b)]
